@@ -3,23 +3,35 @@ import PedVerif.Lemmas.Checker
 namespace PedVerif.Checker
 open PedVerif.Gen.TypeTables
 
-/-- no unsupported annotation object (oracle-answered node) at a position the checker evaluates -/
-def Ann.noSpecial : Ann → Bool
-  | .special _ => false
-  | .union _ ms => noSpecialL ms
-  | .seq _ _ a => a.noSpecial
-  | .map _ _ k v => k.noSpecial && v.noSpecial
-  | .tuple _ items => noSpecialL items
-  | .tupleVar _ a => a.noSpecial
-  | _ => true
-where noSpecialL : List Ann → Bool
-  | [] => true
-  | a :: as => a.noSpecial && noSpecialL as
-
 theorem not_iterator_of_plain {env : Env} {v : Val} (hwf : v.wf env = true) (hp : v.plain = true) :
     env.sub (v.typeOf env) env.iteratorCls = false := by
   have hs := wf_shape hwf
   cases v <;> simp_all [Val.shapeB, Val.plain]
+
+/-- **the two exclusions of `plain`, separately**: no NamedTuple instance anywhere (region `namedtupleStructural`, witness
+    `sound_fails_namedtupleStructural`) and no one-shot iterator anywhere (region `iteratorItemsUnchecked`, witness
+    `sound_fails_iteratorSkip`) -/
+private theorem bool4 (a b c d : Bool) : (!a && !b && (!c && !d)) = (!a && !c && (!b && !d)) := by
+  cases a <;> cases b <;> cases c <;> cases d <;> rfl
+private theorem bool6 (a b c d e f : Bool) : (!a && !b && (!c && !d) && (!e && !f)) = (!a && !c && !e && (!b && !d && !f)) := by
+  cases a <;> cases b <;> cases c <;> cases d <;> cases e <;> cases f <;> rfl
+theorem plain_eq_all : (∀ v : Val, v.plain = (!v.hasNT && !v.hasIter)) ∧ (∀ kvs, plainKV kvs = (!hasNTKV kvs && !hasIterKV kvs)) ∧
+    (∀ xs, plainL xs = (!hasNTL xs && !hasIterL xs)) := by
+  apply Val.plain.mutual_induct
+    (motive_1 := fun v => v.plain = (!v.hasNT && !v.hasIter))
+    (motive_3 := fun xs => plainL xs = (!hasNTL xs && !hasIterL xs))
+    (motive_2 := fun kvs => plainKV kvs = (!hasNTKV kvs && !hasIterKV kvs))
+  case case8 =>
+    intro x xs ih2 ih1
+    simp only [plainL, hasNTL, hasIterL, ih1, ih2, Bool.not_or]
+    exact bool4 _ _ _ _
+  case case10 =>
+    intro k w kvs ih3 ih2 ih1
+    simp only [plainKV, hasNTKV, hasIterKV, ih1, ih2, ih3, Bool.not_or]
+    exact bool6 _ _ _ _ _ _
+  all_goals (intros; simp_all [Val.plain, plainL, plainKV, Val.hasNT, hasNTL, hasNTKV, Val.hasIter, hasIterL, hasIterKV])
+theorem plain_eq (v : Val) : v.plain = (!v.hasNT && !v.hasIter) := plain_eq_all.1 v
+theorem plain_of {v : Val} (hnt : v.hasNT = false) (hit : v.hasIter = false) : v.plain = true := by simp [plain_eq, hnt, hit]
 
 theorem not_asdict_of_plain {v : Val} (hp : v.plain = true) : v.hasAsdict = false := by
   cases v <;> simp_all [Val.plain, Val.hasAsdict]
@@ -93,8 +105,7 @@ theorem seqNode_true {env : Env} {pc : Bool} {sp0 : Spell} {o : SeqOrigin} {a : 
       ∃ xs, v.iter = some xs ∧ ∀ x ∈ xs, elem (sp0 == .pep585) x = .ok true := by
   unfold seqNode at h
   simp only [cfg_req_seq, cfg_req_seqT, cfg_genericChecksOrigin, cfg_origin_seq, cfg_iteratorSkip, not_iterator_of_plain hwf hp,
-    elemQuant_eq, Bool.true_and, Bool.not_true, Bool.false_eq_true, ↓reduceIte, Bool.and_false] at h
-  split at h; · simp at h
+    not_asdict_of_plain hp, elemQuant_eq, Bool.true_and, Bool.not_true, Bool.false_eq_true, ↓reduceIte, Bool.and_false] at h
   split at h; · simp at h
   split at h; · simp at h
   rename_i hsub
@@ -105,13 +116,13 @@ theorem seqNode_true {env : Env} {pc : Bool} {sp0 : Spell} {o : SeqOrigin} {a : 
   · simp at h
 
 theorem mapNode_true {env : Env} {pc : Bool} {sp0 : Spell} {o : MapOrigin} {k w : Ann} {v : Val} {key val : Bool → Val → Raw}
-    (h : mapNode env pc sp0 o k w v key val = .ok true) :
+    (hp : v.plain = true) (h : mapNode env pc sp0 o k w v key val = .ok true) :
     env.sub (v.typeOf env) (env.mapCls o) = true ∧
       ∃ kvs, v.items = some kvs ∧ ∀ kv ∈ kvs, key (sp0 == .pep585) kv.1 = .ok true ∧ val (sp0 == .pep585) kv.2 = .ok true := by
   unfold mapNode at h
   simp only [cfg_req_map, cfg_req_mapT, cfg_genericChecksOrigin, cfg_origin_map, cfg_itemsChecksKey, cfg_itemsChecksValue,
+    not_asdict_of_plain hp, Bool.and_false,
     Bool.true_and, Bool.not_true, Bool.false_eq_true, ↓reduceIte] at h
-  split at h; · simp at h
   split at h; · simp at h
   split at h; · simp at h
   rename_i hsub
@@ -257,7 +268,7 @@ theorem sound_raw (env : Env) (orc : Nat → Val → Raw) (hw : WfEnv env) :
   case case12 =>
     intro pc sp0 o k w v ihk ihw hns hwf hp h
     simp only [isInstance] at h
-    obtain ⟨hsub, kvs, hi, hall⟩ := mapNode_true h
+    obtain ⟨hsub, kvs, hi, hall⟩ := mapNode_true hp h
     simp only [conforms, hsub, hi, Bool.true_and, List.all_eq_true, Bool.and_eq_true]
     have hkv := items_plain_wf hwf hp hi
     simp only [Ann.noSpecial, Bool.and_eq_true] at hns
@@ -311,17 +322,26 @@ theorem sound_raw (env : Env) (orc : Nat → Val → Raw) (hw : WfEnv env) :
     · exact Or.inr (ih3 hns.2 hwf hp h2)
   all_goals (intros; trivial)
 
-/-- semantic guard for top-level string annotations whose name is NOT a class of the context: such a name is compared with
-    the class names of the value's MRO, so the guard says that no class carries a name the context does not know.  (A string
-    annotation that names a class of the context needs no guard: it is checked with isinstance against that class.)  The
-    complement of the guard is outside the vocabulary of C01 ("forward references naming a class"). -/
+/-- the former, global form of the guard (a property of the whole class table: no class anywhere carries a name the context does
+    not bind).  It is false for every realistic table - `object` is never a name of the context - and is kept only to show that it
+    implies the local guard. -/
 def StrAnnGuard (env : Env) : Prop :=
   ∀ (t : ClsId) (n : NameId), env.ctx n = Option.none → (env.mroNames t).contains n = false
 
+theorem strAnnOk_of_guard {env : Env} (h : StrAnnGuard env) (a : Ann) (v : Val) : a.strAnnOk env v = true := by
+  cases a <;> simp only [Ann.strAnnOk]
+  rename_i n
+  cases hc : env.ctx n with
+  | some c => simp
+  | none => simpa using h (v.typeOf env) n hc
+
+/-- an annotation that is no string annotation meets the guard, whatever the class table and the value -/
+theorem strAnnOk_of_not_str {env : Env} {a : Ann} (h : ∀ n, a ≠ .strAnn n) (v : Val) : a.strAnnOk env v = true := by
+  cases a <;> simp_all [Ann.strAnnOk]
 
 /-- soundness of `_check_type` (the statement of C01; restated in Props/C01.lean) -/
-theorem sound_checkType (env : Env) (orc : Nat → Val → Raw) (hw : WfEnv env) (hs : StrAnnGuard env)
-    (a : Ann) (v : Val) (hns : a.noSpecial = true) (hwf : v.wf env = true) (hp : v.plain = true) :
+theorem sound_checkType (env : Env) (orc : Nat → Val → Raw) (hw : WfEnv env)
+    (a : Ann) (v : Val) (hs : a.strAnnOk env v = true) (hns : a.noSpecial = true) (hwf : v.wf env = true) (hp : v.plain = true) :
     checkType env orc a v = .accept → conforms env a v = true := by
   intro h
   cases a
@@ -332,7 +352,8 @@ theorem sound_checkType (env : Env) (orc : Nat → Val → Raw) (hw : WfEnv env)
     cases hc : env.ctx n with
     | some c => simp only [hc] at h ⊢; split at h <;> simp_all
     | none =>
-      simp only [hc, strAnnByName, cfg_strBranch.2, ↓reduceIte, hs _ _ hc] at h
+      simp only [Ann.strAnnOk, hc, Option.isSome_none, Bool.false_or, Bool.not_eq_true'] at hs
+      simp only [hc, strAnnByName, cfg_strBranch.2, ↓reduceIte, hs] at h
       simp at h
   all_goals (simp only [checkType, wrap_accept] at h; exact (sound_raw env orc hw).1 _ _ v hns hwf hp h)
 
